@@ -110,6 +110,36 @@ def scenario_coq(sc, idx, use_gen):
     src.append("Definition %s_all_groups : list bytes := [%s]%%list." % (n, "; ".join(B(g) for g in (allg or []))))
     src.append("Definition %s_loaded : list bytes := [%s]%%list." % (n, "; ".join(B(g) for g in (loaded or []))))
 
+    # newEngine's tail, regenerated: which error (or which loads) it produces for these flags with the rules on disk at
+    # version v -- file system: the scenario's rules files exist (content token = the name), everything else does not;
+    # engine: the direct engine's load error, for the file it belongs to
+    if use_gen:
+        files = sc.get("rule_files") or []
+        src.append("Definition %s_rules : bytes := %s.\nDefinition %s_files : list bytes := [%s]%%list." % (
+            n, B(fl["rules"]), n, "; ".join(B(f) for f in files)))
+        arms = []
+        for v in ("0", "1", "2"):
+            derr, dfile = sc["direct_err"].get(v), (sc.get("direct_err_file") or {}).get(v)
+            if derr is not None and dfile is not None:
+                arms.append("    | %s%%N => if bytes_eqb f %s then Some %s else None" % (v, B(dfile), B(derr)))
+        src.append("Definition %s_lerr (v : N) (f : bytes) : option bytes :=\n  match v with\n%s\n    | _ => None\n  end." % (n, "\n".join(arms)))
+        src.append("Definition %s_ne (v : N) : outcome ne_result := gen_new_engine_tail %s_rules %s_e "
+                   "(fun f => if mem_b f %s_files then inl f else inr (%s ++ f ++ %s)) (fun _ f _ => %s_lerr v f)." % (
+                       n, n, n, n, B("open "), B(": no such file or directory"), n))
+        exp = []
+        for st in sc["steps"]:
+            exp.append("(%d%%N, %s)" % (st["version"], "Some %s" % B(st["_lerr"]) if st["_lerr"] is not None else "None"))
+        want_names = "[%s]%%list" % "; ".join(B(f) for f in files) if sc["mode"] in ("rules", "rules+e") else "[[101]]%list"
+        src.append("Definition %s_ne_bad : list Z * bool :=\n"
+                   "  (mismatches (fun (x _ : N * option bytes) => match %s_ne (fst x), snd x with\n"
+                   "      | Ok (NEFail _ m), Some w => bytes_eqb m w | Ok (NEDone _), None => true | _, _ => false end)\n"
+                   "     [%s] [%s],\n"
+                   "   forallb (fun x : N * option bytes => match %s_ne (fst x) with Ok (NEDone l) => list_eqb bytes_eqb (map fst l) %s"
+                   " && forallb (fun p : bytes * bytes => bytes_eqb (fst p) (snd p) || bytes_eqb (fst p) [101]) l | _ => true end) [%s])." % (
+                       n, n, "; ".join(exp), "; ".join(exp), n, want_names, "; ".join(exp)))
+    else:
+        src.append("Definition %s_ne_bad : list Z * bool := ([], true)." % n)
+
     def variant(tag, filt, cb, prep, pl):
         out = []
         out.append("Definition %s_%s_inputs : list pass_input := map (fun s : load_outcome * N => let '(lo, pk) := s in "
@@ -172,7 +202,7 @@ def run(c):
     if gen_usable and not gen_ok:
         # evaluate the regenerated definitions without the (broken) proofs: a stub Inst file providing gen_filter / gen_prep
         stub = ("From Coq Require Import List ZArith Bool.\nFrom RG.Base Require Import Outcome GoSlice.\n"
-                "From RG.Adapter Require Import Str Model.\nFrom RGW Require Import Gen_Adapter.\nImport ListNotations.\n"
+                "From RG.Adapter Require Import Str Model NewEngine.\nFrom RGW Require Import Gen_Adapter.\nImport ListNotations.\n"
                 "Definition gen_filter (enable disable : bytes) (g : group_info) : bool := let '(en, dis) := gen_group_maps enable disable in gen_group_filter enable en dis g.\n"
                 "Definition gen_prep (g : gstate) (lo : load_outcome) : gstate * prep_result * nat := let o := run_tree gen_prepare_tree false g lo in (po_state o, po_res o, count_loads (po_trace o)).\n")
         ok, out = c.coq_eval("Inst_Stub.v", stub)
@@ -239,9 +269,8 @@ def run(c):
         for st in sc["steps"]:
             lerr = load_error_text(sc, st["version"])
             if lerr is None and sc["missing_file"]:
-                # os.ReadFile error text is the OS's; take it from the observation but insist on its class
-                m = re.match(r"^load rules: (read rules file: open .*missing\.go: no such file or directory)$", st["err"] or "")
-                lerr = m.group(1) if m else "read rules file: <os error>"
+                # os.ReadFile's error for a file that does not exist (the missing file is the last, undecorated entry of -rules)
+                lerr = "read rules file: open %s: no such file or directory" % sc["flags"]["rules"].rsplit(",", 1)[-1]
             st["_lerr"] = lerr
         for st in sc["steps"]:
             if st["_lerr"] is None:
@@ -264,7 +293,7 @@ def run(c):
         NSH = 12
         jobs = []
         pre = ["From Coq Require Import List ZArith Bool.", "From RG.Base Require Import Outcome GoSlice.",
-               "From RG.Adapter Require Import Str Model Corr.",
+               "From RG.Adapter Require Import Str Model NewEngine Corr.",
                ("From RGW Require Import Gen_Adapter Inst_Adapter." if gen_ok else
                 ("From RGW Require Import Gen_Adapter Inst_Stub." if gen_usable else "")),
                "Import ListNotations. Local Open Scope Z_scope."]
@@ -275,7 +304,7 @@ def run(c):
             for i in idxs:
                 src.append(scenario_coq(scs[i], i, gen_ok or gen_usable))
             src.append("Definition RES := Eval vm_compute in [%s]." % "; ".join(
-                "(%d, sc%d_spec_bad, sc%d_gen_bad)" % (i, i, i) for i in idxs))
+                "(%d, sc%d_spec_bad, sc%d_gen_bad, sc%d_ne_bad)" % (i, i, i, i) for i in idxs))
             src.append("Print RES.")
             jobs.append(("Cases_%s_%d.v" % (tag, k), "\n".join(src)))
         results = {}
@@ -288,13 +317,14 @@ def run(c):
                 c.obligation("coq-eval-parse:" + fname, False, out[-2000:])
                 continue
             body = re.sub(r"\s+", " ", m.group(1)).replace("%Z", "")
-            for mm in re.finditer(r"\((\d+), \(\[([^\]]*)\], \[([^\]]*)\], (true|false)\), \(\[([^\]]*)\], \[([^\]]*)\], (true|false)\)\)", body):
+            for mm in re.finditer(r"\((\d+), \(\[([^\]]*)\], \[([^\]]*)\], (true|false)\), \(\[([^\]]*)\], \[([^\]]*)\], (true|false)\), \(\[([^\]]*)\], (true|false)\)\)", body):
                 i = int(mm.group(1))
 
                 def ints(s):
                     return [int(x) for x in s.split(";") if x.strip()]
                 results[i] = {"spec": (ints(mm.group(2)), ints(mm.group(3)), mm.group(4) == "true"),
-                              "gen": (ints(mm.group(5)), ints(mm.group(6)), mm.group(7) == "true")}
+                              "gen": (ints(mm.group(5)), ints(mm.group(6)), mm.group(7) == "true"),
+                              "ne": (ints(mm.group(8)), mm.group(9) == "true")}
         for i, sc in enumerate(scs):
             c.count(len(sc["steps"]))
             fl = sc["flags"]
@@ -329,6 +359,15 @@ def run(c):
                     c.fail("corr", "regenerated Coq model disagrees with the implementation", input=dict(inp, **stepinfo(j)))
                 if not g_groups:
                     c.fail("corr", "regenerated group filter disagrees with the implementation", input=inp)
+            ne_steps, ne_names = r["ne"]
+            if not (s_out or s_st):
+                for j in ne_steps[:2]:
+                    c.fail("corr", "regenerated newEngine tail predicts another load outcome (error text / success) than the adapter showed",
+                           input=dict(inp, **stepinfo(j)), expected=steps[j]["_lerr"] if j < len(steps) else None)
+                if not ne_names:
+                    c.fail("corr", "regenerated newEngine tail loads other files (names / order / contents) than the flags name",
+                           input=inp, expected=sc.get("rule_files"))
+            c.coverage["new_engine_tail_evaluations"] = c.coverage.get("new_engine_tail_evaluations", 0) + len(steps)
             # load accounting that does not go through the model
             v0 = sc["_loaded_version"]
             first_ok = [st for st in steps if st["has_engine"]]
